@@ -15,7 +15,7 @@ import os
 from fractions import Fraction
 
 from .values import (
-    App, BoundMethod, BuiltinV, ClassMethodV, ClassV, Cond, ConstObj, DictV, Ext, FuncV, Lin, ListOf, ListV,
+    App, BoundMethod, BuiltinV, ClassMethodV, ClassV, Cond, ConstObj, NTuple, DictV, Ext, FuncV, Lin, ListOf, ListV,
     IterV, LazyV, UNRESOLVED, ModuleV, Obj, PartialV, PropertyV, SetV, StaticV, SuperV, Sym, SymStr, Unsupported, cmp_cond,
     fresh_id, is_num, num_add, num_div, num_mul, show, str_concat, vkey,
 )
@@ -375,6 +375,11 @@ class Interp:
         self.live_gens = []
         self.dead = False
         self.chooser.cleanups.append(self.finish)
+        if not getattr(program, "_prelude_builtins", False):
+            program._prelude_builtins = True
+            pm = models.model_module(self, "builtins")
+            for k in ("filter", "map"):
+                self.builtins[k] = pm.ns[k]
 
     def as_exc(self, v, node):
         """exception instance from what a raise statement / throw() was given"""
@@ -672,6 +677,11 @@ class Interp:
         """__set_name__ protocol for members that define it."""
         if any(isinstance(b, Ext) and b.path.startswith("enum.") for c in cls.mro for b in c.bases):
             self.finish_enum(cls)
+        if any(isinstance(b, Ext) and b.path == "typing.NamedTuple" for b in cls.bases):
+            # class-syntax NamedTuple: the annotated names are the fields, class-level values their defaults
+            cls.nt_fields = [k for k in cls.annotations if not str(cls.annotations[k]).startswith(("ClassVar", "typing.ClassVar"))]
+            cls.nt_defaults = {k: cls.ns.pop(k) for k in list(cls.nt_fields) if k in cls.ns}
+            cls.ns["_fields"] = tuple(cls.nt_fields)
         for k, v in list(cls.ns.items()):
             if isinstance(v, Obj):
                 c, f = v.cls.lookup("__set_name__")
@@ -997,6 +1007,11 @@ class Interp:
         """-> ('known', [items]) or ('generic', source)"""
         if isinstance(it, (tuple, list)):
             return "known", list(it)
+        if isinstance(it, Obj) and it.cls.lookup("__iter__")[1] is not None:
+            r = self.obj_iter(it, node)
+            if r is it:
+                self.unsupported("iteration over an object that is its own iterator", node)
+            return self.iterate(r, node)
         if isinstance(it, GenV):
             out = []
             while True:
@@ -1030,11 +1045,14 @@ class Interp:
                 return kind, items
             if it.kind == "filter":
                 if it.fn is None:
-                    return "known", [x for x in items if self.truth(x, node)]
-                return "known", [x for x in items if self.truth(self.call(it.fn, [x], {}, node), node)]
-            if it.kind == "map":
-                return "known", [self.call(it.fn, [x], {}, node) for x in items]
-            return "known", items
+                    items = [x for x in items if self.truth(x, node)]
+                else:
+                    items = [x for x in items if self.truth(self.call(it.fn, [x], {}, node), node)]
+            elif it.kind == "map":
+                items = [self.call(it.fn, [x], {}, node) for x in items]
+            it.items = list(items)
+            it.pos = len(it.items)
+            return "known", list(items)
         if isinstance(it, DictV):
             return "known", list(it.items.keys())
         if isinstance(it, str):
@@ -1076,10 +1094,19 @@ class Interp:
             return Ext(f"{src.path}[i{i}]", src.origin, parent=src, role="elem")
         return Sym(f"{src.name}[i{i}]", "any", src.tag)
 
+    def obj_iter(self, v, node):
+        """iter(v) for an instance of a repository class that defines __iter__"""
+        if isinstance(v, Obj) and not isinstance(v, Ext):
+            c, f = v.cls.lookup("__iter__")
+            if f is not None:
+                return self.call(self.bind(f, v, c), [], {}, node)
+        return v
+
     def x_For(self, s, fr):
-        it = self.eval(s.iter, fr)
+        it = self.obj_iter(self.eval(s.iter, fr), s)
         if isinstance(it, GenV):
             return self.for_generator(s, fr, it)
+        pos0 = it.pos if isinstance(it, IterV) and it.items is not None else 0
         kind, items = self.iterate(it, s)
         broke = False
         if kind == "known":
@@ -1091,6 +1118,8 @@ class Interp:
                     self.exec_block(s.body, fr)
                 except BreakEx:
                     broke = True
+                    if isinstance(it, IterV) and it.items is not None and not hasattr(it.items, "start"):
+                        it.pos = pos0 + i + 1  # a one-shot iterator keeps what the loop did not take
                     break
                 except ContinueEx:
                     continue
@@ -1398,6 +1427,12 @@ class Interp:
         if isinstance(op, ast.Sub):
             return num_add(self.as_num(a, node), self.as_num(b, node), -1)
         if isinstance(op, ast.Mult):
+            for x, y in ((a, b), (b, a)):
+                if isinstance(y, int) and not isinstance(y, bool):
+                    if isinstance(x, ListV) and not any(isinstance(q, tuple) and len(q) == 2 and q[0] == "*" for q in x.items):
+                        return ListV(x.items * y)
+                    if isinstance(x, (str, tuple)) and type(x) in (str, tuple):
+                        return x * y
             return num_mul(self.as_num(a, node), self.as_num(b, node))
         if isinstance(op, ast.Div):
             try:
@@ -1703,7 +1738,7 @@ class Interp:
         it = self.eval(g.iter, fr) if i > 0 else self.eval(g.iter, fr)
         kind, items = self.iterate(it, node)
         if kind != "known":
-            k = self.choose(self.generic_loop_max + 1, ("comp", self.site(node)))
+            k = self.generic_len(items, node)  # the same length as every other loop over this list on this path
             items = [self.generic_elem(items, j) for j in range(k)]
         sub = Frame(fr.module, fr.func, closure=[fr.locals] + fr.closure, mangle=fr.mangle, owner=fr.owner)
         sub.site_fn = fr.site_fn
@@ -1794,7 +1829,7 @@ class Interp:
         if isinstance(f, StaticV):
             return f.f
         if isinstance(f, ClassMethodV):
-            return BoundMethod(f.f, obj.cls if isinstance(obj, Obj) else obj)
+            return BoundMethod(f.f, obj.cls if isinstance(obj, (Obj, NTuple)) else obj)
         if isinstance(f, BuiltinV) and getattr(f, "is_method", False):
             return BoundMethod(f, obj)
         return f
@@ -1811,6 +1846,8 @@ class Interp:
         return r
 
     def _getattr(self, obj, name, node):
+        if isinstance(obj, NTuple):
+            return self.ntuple_attr(obj, name, node)
         if isinstance(obj, GenV):
             g = obj
             table = {
@@ -2133,7 +2170,55 @@ class Interp:
             if self.hooks is not None and hasattr(self.hooks, "on_exit"):
                 self.hooks.on_exit(self, f, node)
 
+    def make_ntuple(self, cls, args, kwargs, node):
+        vals = []
+        kwargs = dict(kwargs)
+        if len(args) > len(cls.nt_fields):
+            raise AbsRaise(self.make_exc("TypeError", f"{cls.name}() takes {len(cls.nt_fields)} positional arguments"), self.site(node), True)
+        for j, name in enumerate(cls.nt_fields):
+            if j < len(args):
+                if name in kwargs:
+                    raise AbsRaise(self.make_exc("TypeError", f"multiple values for {name}"), self.site(node), True)
+                vals.append(args[j])
+            elif name in kwargs:
+                vals.append(kwargs.pop(name))
+            elif name in cls.nt_defaults:
+                vals.append(cls.nt_defaults[name])
+            else:
+                raise AbsRaise(self.make_exc("TypeError", f"{cls.name}() missing argument {name!r}"), self.site(node), True)
+        if kwargs:
+            raise AbsRaise(self.make_exc("TypeError", f"{cls.name}() got an unexpected keyword argument {next(iter(kwargs))!r}"), self.site(node), True)
+        return NTuple(cls, vals)
+
+    def ntuple_attr(self, obj, name, node):
+        cls = obj.cls
+        if name in cls.nt_fields:
+            return obj[cls.nt_fields.index(name)]
+        if name == "_fields":
+            return tuple(cls.nt_fields)
+        if name == "__class__":
+            return cls
+        if name == "_asdict":
+            return BuiltinV("namedtuple._asdict", lambda i, a, k, n: DictV(dict(zip(cls.nt_fields, obj))))
+        if name == "_replace":
+            def repl(i, a, k, n):
+                bad = [x for x in k if x not in cls.nt_fields]
+                if bad:
+                    raise AbsRaise(i.make_exc("ValueError", f"Got unexpected field names: {bad!r}"), i.site(n), True)
+                return NTuple(cls, [k.get(f, v) for f, v in zip(cls.nt_fields, obj)])
+            return BuiltinV("namedtuple._replace", repl)
+        if name in ("count", "index"):
+            self.unsupported(f"tuple.{name}", node)
+        c, v = cls.lookup(name)
+        if v is None and c is None:
+            return MISSING
+        if isinstance(v, PropertyV):
+            return self.call(v.fget, [obj], {}, node)
+        return self.bind(v, obj, c)
+
     def instantiate(self, cls, args, kwargs, node):
+        if getattr(cls, "nt_fields", None) is not None:
+            return self.make_ntuple(cls, args, kwargs, node)
         if cls.qualname in self.record_ctor:
             return self.models.record_construct(self, cls, args, kwargs, node)
         r = self.models.builtin_instantiate(self, cls, args, kwargs, node)
